@@ -119,6 +119,8 @@ def run_streams(ctx, mask, monitor, signature, streams, known=None):
             else:
                 recipe = S.gen_sim(rng, gen=name, **kw)
             recipe['case_index'] = i
+            if recipe['algo'] == 'priority-pool' and i % 6 == 1 and recipe['cpu'] >= 4:
+                recipe['cpu'] = recipe['cpu'] + 1 if recipe['cpu'] % 2 == 0 else recipe['cpu']   # odd CPU counts: half of the pool is not an integer
             if i % 5 == 2:
                 recipe['via_trace'] = 1       # every fifth run: the arrivals go through the real trace replayer
             if i % 4 == 3 and recipe['algo'] != 'rest':
